@@ -97,6 +97,7 @@ struct HaWorld : World {
         (void)mode;
         return op;
     }
+    bool result_is_ambiguous(const Op &op) const override { return op.k == HA_CLEAR; }
     bool is_mutation(const Op &op) const override { return op.k == HA_PUT || op.k == HA_REMOVE || op.k == HA_CLEAR; }
 
     void init(const Cfg &c) override {
@@ -243,7 +244,7 @@ struct HaWorld : World {
             }
             if (ok) return R_ok();
             // refused because an injected allocation failed: the runner compares the whole table with the state before the call
-            if (sim_fault_fired() > 0) return R_fail("enomem");
+            if (sim_fault_fired() > 0 && perr != ENOBUFS) return R_fail("enomem");     // (refused for lack of room despite the fault: the ordinary refusal below)
             // a failed put: own key unchanged or absent, never partially written. Canonicalise to "absent".
             sim_fault_suspend(true);
             size_t nsz = 0; void *now; { InSut s; now = t->get_by_obj(t, kb.p, kb.n, &nsz); }
@@ -254,7 +255,7 @@ struct HaWorld : World {
             else if (!present) r = R_fail("own-key-ok");
             else if (old && nowv == oldv) {
                 // refused for lack of space: canonical form "absent". A call that failed because an allocation was refused must leave the key alone.
-                if (sim_fault_fired() == 0) { InSut s; t->remove_by_obj(t, (const char *)kb.p, kb.n); }
+                { InSut s; t->remove_by_obj(t, (const char *)kb.p, kb.n); }
                 r = R_fail("own-key-ok");
             }
             else r = R_fail("own-key-partially-written:" + hexs(nowv, 40));
@@ -319,7 +320,7 @@ struct HaWorld : World {
             for (;;) {
                 memset(&o, 0, sizeof o);
                 bool more; { InSut s; more = t->getnext(t, &o, &idx); }
-                if (!more && sim_fault_fired() > fired_seen && retries < 1) { fired_seen = sim_fault_fired(); retries++; x.st.add("probe.walk_step_retried_after_enomem"); continue; }
+                if (!more && sim_fault_fired() > fired_seen && retries < 1) { fired_seen = sim_fault_fired(); retries++; failed = true; x.st.add("probe.walk_step_retried_after_enomem"); continue; }   // a step reported failure: so does the walk (the retry only probes that the cursor is still safe to use)
                 if (!more) { if (sim_fault_fired() > fired_seen) failed = true; break; }
                 Bytes e; Bytes nm((const char *)o.name, o.namesize), v((const char *)o.data, o.datasize);
                 enc(e, nm); enc(e, v); seen.push_back(e);
